@@ -28,6 +28,7 @@ def LangData.symName (d : LangData) (s : Nat) : String :=
 
 structure St where
   langs : Std.HashMap String LangData := {}
+  colFix : Bool := false
   cur : String := ""          -- language being defined
   mode : Nat := 0             -- 0 none 1 table 2 langdef 3 old 4 incr 5 scratch 6 walk_incr 7 walk_scratch 8 log
   id : String := ""
@@ -67,7 +68,7 @@ def replayLine (L : Lang) (nm : Nat → String) (starts : Array Nat) (root : Tre
     let st := natOf ((field r "state").getD "0")
     let row := natOf ((field r "row").getD "0")
     let col := natOf ((field r "col").getD "0")
-    s.process st ((starts[row]?.getD 0) + col)
+    s.process st ((starts[row]?.getD 0) + col) col
   else if let some r := afterPrefix line "before_reusable_node symbol:" then s.gateEvent L nm .before r
   else if let some r := afterPrefix line "past_reusable_node symbol:" then s.gateEvent L nm .past r
   else if let some r := afterPrefix line "reusable_node_has_different_external_scanner_state symbol:" then s.gateEvent L nm .extState r
@@ -93,11 +94,11 @@ def runCase (s : St) : String :=
       | .fail m => ("FAIL " ++ m, false)
     let L := ld.toLang
     let starts := lineStarts s.text2
-    let rs := s.log.foldl (replayLine L ld.symName starts o.root) ({} : RS)
+    let rs := s.log.foldl (replayLine L ld.symName starts o.root) ({ colFix := s.colFix } : RS)
     let corr := match rs.fail with
       | none => "ok"
       | some m => "DIFF " ++ m
-    s!"{s.id} judge={j} corr={corr} clean={if clean then 1 else 0} gate={rs.gate} match={rs.matched} undet={rs.undet} refusals={rs.refusals} reused_inner={rs.reusedInner} reused_leaf={rs.reusedLeaf} reused_bytes={rs.reusedBytes} lexed={rs.lexed} nodes={i.root.size}"
+    s!"{s.id} judge={j} corr={corr} clean={if clean then 1 else 0} gate={rs.gate} match={rs.matched} undet={rs.undet} refusals={rs.refusals} reused_inner={rs.reusedInner} reused_leaf={rs.reusedLeaf} reused_bytes={rs.reusedBytes} lexed={rs.lexed} nodes={i.root.size} rangediffs={rs.diffs.size} coldep={if rs.coldepSeen then 1 else 0}"
   | none, _, _, _ => s!"{s.id} judge=BADINPUT corr=BADINPUT no tables for language {s.lang}"
   | _, _, _, _ => s!"{s.id} judge=BADINPUT corr=BADINPUT unreadable dump"
 
@@ -132,6 +133,7 @@ def step (s : St) (line : String) : IO St := do
       let s := { s with cur := id, mode := 1 }
       return updLang s fun d => { d with kct := natOf kct, lexModes := #[], entries := {} }
     | ["langdef", id] => return { s with cur := id, mode := 2 }
+    | ["variant", "colfix", v] => return { s with colFix := v == "1" }
     | ["case", id] =>
       return { s with id := id, lang := "", text2 := #[], old := #[], incr := #[], scratch := #[],
                       walkIncr := #[], walkScratch := #[], log := #[] }
